@@ -74,6 +74,17 @@ def _find_walk(ctx, path, qualname, rule):
     return w
 
 
+def _is_shortcircuit_step(node):
+    """`if t: t = B` / `if not t: t = B` (nothing else): the second half of the statement form of `t = A and B` / `t = A or B`"""
+    if not isinstance(node, ast.If) or node.orelse or len(node.body) != 1:
+        return False
+    b = node.body[0]
+    t = node.test
+    if isinstance(t, ast.UnaryOp) and isinstance(t.op, ast.Not):
+        t = t.operand
+    return isinstance(t, ast.Name) and isinstance(b, ast.Assign) and len(b.targets) == 1 and isinstance(b.targets[0], ast.Name) and b.targets[0].id == t.id
+
+
 def _classify(w, test, mod, ctx):
     """Decompose a boolean test into a tree of classified atoms.
     returns ('or'|'and', [children]) | ('not', child) | ('atom', class, text)"""
@@ -89,9 +100,21 @@ def _classify(w, test, mod, ctx):
             and test.args[0].id == w.links:
         return ("atom", "NONEMPTY", txt)
     if isinstance(test, ast.Name):
-        for st in ast.walk(w.loop):
-            if isinstance(st, ast.Assign) and len(st.targets) == 1 and isinstance(st.targets[0], ast.Name) and st.targets[0].id == test.id \
-                    and isinstance(st.value, (ast.Compare, ast.BoolOp)):
+        defs_ = [st for st in ast.walk(w.loop) if isinstance(st, ast.Assign) and len(st.targets) == 1 and isinstance(st.targets[0], ast.Name) and st.targets[0].id == test.id]
+        if len(defs_) == 2:
+            # the statement form of a short-circuit value: `t = A; if t: t = B` is `A and B`, `t = A; if not t: t = B` is `A or B`
+            a_, b_ = sorted(defs_, key=lambda d_: (d_.lineno, d_.col_offset))
+            par_ = getattr(b_, "_parent", None)
+            if isinstance(par_, ast.If) and par_.body == [b_] and not par_.orelse:
+                blk = getattr(par_, "_parent", None)
+                body_ = next((x for x in (getattr(blk, "body", None), getattr(blk, "orelse", None), getattr(blk, "finalbody", None)) if isinstance(x, list) and par_ in x), None)
+                t_ = par_.test
+                neg_ = isinstance(t_, ast.UnaryOp) and isinstance(t_.op, ast.Not)
+                t_ = t_.operand if neg_ else t_
+                if body_ is not None and a_ in body_ and body_.index(par_) == body_.index(a_) + 1 and isinstance(t_, ast.Name) and t_.id == test.id:
+                    return ("or" if neg_ else "and", [_classify(w, a_.value, mod, ctx), _classify(w, b_.value, mod, ctx)])
+        for st in defs_:
+            if isinstance(st.value, (ast.Compare, ast.BoolOp)) or (isinstance(st.value, ast.UnaryOp) and isinstance(st.value.op, ast.Not)):
                 return _classify(w, st.value, mod, ctx)
         if "directory" in test.id and "previous" in test.id:
             return ("atom", "PREV-DIR", test.id)
@@ -148,7 +171,17 @@ def _show(t):
         return t[1]
     if t[0] == "not":
         return "!" + _show(t[1])
-    return "(" + (" | " if t[0] == "or" else " & ").join(sorted(_show(c) for c in t[1])) + ")"  # operands sorted: the key is order-insensitive
+    # operands sorted and nested uses of the same operator flattened: the key does not depend on order or bracketing
+    def flat(node, op):
+        out = []
+        for c in node[1]:
+            if c[0] == op:
+                out += flat(c, op)
+            else:
+                out.append(c)
+        return out
+
+    return "(" + (" | " if t[0] == "or" else " & ").join(sorted(_show(c) for c in flat(t, t[0]))) + ")"
 
 
 def _nnf(t, pol=True):
@@ -233,6 +266,8 @@ def _analyse(ctx, which, rule_ids):
         tests = []
         for s in pr.steps:
             if s.kind == "test" and s.label in ("true", "false") and isinstance(s.ast, (ast.If, ast.While)):
+                if _is_shortcircuit_step(s.ast):
+                    continue  # `if t: t = B` only finishes computing the boolean t = A and B; the test that uses t is classified whole
                 tests.append((_classify(w, s.ast.test, mod, ctx), s.label == "true", s.ast))
         stmts = [s.ast for s in pr.steps if s.kind in ("stmt", "raise", "return", "break") and s.ast is not None]
         installed = any(any(c in w.installs for c in ast.walk(st)) for st in stmts)
